@@ -111,6 +111,16 @@ def generate(tier, seed, ctx):
         except Exception:
             pass
     idtexts = sorted(set(idtexts)) or ['abcd']
+    # truncated ids (those whose missing high bytes are zero come first: a lookup that zero-extends would find them)
+    short_ids = []
+    for sch in tl.list:
+        le = bytes(sch.id[::-1])
+        for n in (3, 2, 1):
+            if all(b == 0 for b in le[n:]):
+                short_ids.insert(0, le[:n])
+            else:
+                short_ids.append(le[:n])
+    short_ids = short_ids[:40] + rng.sample(short_ids, 40)
     # payloads that fail INSIDE a nested parse: a constructor whose first field is a vector, announcing elements that are not there
     hostile_payloads = [bytes(tl.get_by_name(n).id[::-1]) + (3).to_bytes(4, 'little') for n in names
                         if db[n]['fields'] and db[n]['fields'][0]['t']['k'] == 'vector' and not db[n]['fields'][0]['c']][:12]
@@ -149,6 +159,10 @@ def generate(tier, seed, ctx):
                     # the field carries boxed objects (one; several, concatenated), which the parser hands back as objects
                     for nest in (1, 2, 3):
                         vals.append(g.ctor(name, hints={f['n']: {'nest': nest}}))
+                if k == 'bytes' and rng.random() < (0.25 if q else 1.0):
+                    # raw bytes that are the first one, two or three bytes of a constructor id (not an id: they stay raw bytes)
+                    for sid in rng.sample(short_ids, 3 if q else 12):
+                        vals.append(g.ctor(name, hints={f['n']: ('raw', sid)}))
                 if k == 'string' and rng.random() < (0.3 if q else 1.0):
                     # a text is a text whatever it starts with - also the four bytes of a constructor id
                     for idt in rng.sample(idtexts, 2 if q else 8):
